@@ -46,6 +46,45 @@ def canonical_classifier():
     return resort(("or", (eq(L1, ("c", 1)), ("and", (eq(L0, ("c", 1)), ("cmp", "<", ("c", 2), L1))))))
 
 
+def classifier_table(t, grid=range(1, 6)):
+    """Truth table of a Kraus-list classifier over (len(PHI), len(PHI[0])) in grid x grid.  The classifier only compares these two
+    lengths with small constants, so its behaviour is determined by finitely many orderings; two spellings are the same classifier iff
+    their tables agree.  Returns None when the term contains anything else."""
+    L0 = ("call", "builtins.len", (("n", "PHI"),), ())
+    L1 = ("call", "builtins.len", (("sub", ("n", "PHI"), ("c", 0)),), ())
+
+    def val(x, a, b):
+        if x == L0:
+            return a
+        if x == L1:
+            return b
+        if x[0] == "c" and isinstance(x[1], int) and not isinstance(x[1], bool):
+            return x[1]
+        if x[0] == "sub" and x[1][0] in ("list", "tuple") and x[2][0] == "c":
+            return val(x[1][1 + x[2][1]], a, b)
+        raise ValueError
+
+    def ev(x, a, b):
+        h = x[0]
+        if h == "cmp":
+            l, r = val(x[2], a, b), val(x[3], a, b)
+            return {"==": l == r, "!=": l != r, "<": l < r, "<=": l <= r, ">": l > r, ">=": l >= r}[x[1]]
+        if h == "and":
+            return all(ev(y, a, b) for y in x[1])
+        if h == "or":
+            return any(ev(y, a, b) for y in x[1])
+        if h == "not":
+            return not ev(x[1], a, b)
+        if h == "c" and isinstance(x[1], bool):
+            return x[1]
+        raise ValueError
+
+    try:
+        return tuple(ev(t, a, b) for a in grid for b in grid)
+    except (ValueError, KeyError, IndexError, TypeError):
+        return None
+
+
 def run(ctx):
     m = ctx.model
     ctx.rule("R-SIB", "the flat/nested/paired Kraus-list classifier is the same boolean function in apply_channel, partial_channel and channel_dim")
@@ -66,6 +105,9 @@ def run(ctx):
             ctx.ob("R-SIB", f, "kraus-list classifier", None, "classifier test not found (delegated?)", required=False)
             continue
         eqv = bool_equiv(core, canon)
+        tc, tk = classifier_table(core), classifier_table(canon)
+        if not eqv and tc is not None and tc == tk:
+            eqv = True  # another spelling of the same comparisons (e.g. len(p) >= 2 for len(p) > 1)
         if not eqv and isinstance(node, ast.If) and node.orelse and bool_equiv(core, resort(Normalizer(m, f)._not(canon))):
             # the same test written with its branches exchanged: the branch taken when the family is NOT flat must be the one
             # that reads both members of each pair (a constant index 1), the flat branch must not
@@ -481,6 +523,15 @@ def _decomposition_conventions(ctx, f):
             it = n.generators[0].iter
             if isinstance(it, ast.Call) and isinstance(it.func, ast.Name) and it.func.id == "zip" and len(it.args) == 2:
                 second = N(it.args[1])
+                # flow-sensitive: a name that was (re)bound on this path right before the comprehension stands for that value
+                from ..rules import _subst, last_def_at
+                for _ in range(2):
+                    for nm_ in sorted({x[1] for x in subterms(second) if isinstance(x, tuple) and len(x) == 2 and x[0] == "n"}):
+                        if f.param(nm_) is None and nm_ not in svd_u | svd_vh:
+                            dv_ = last_def_at(m, f, nm_, n, N)
+                            if dv_ is not None and not mentions_name(dv_, nm_) and dv_[0] in ("T", "dag", "conj", "n", "sub", "attr"):
+                                second = _subst(second, nm_, dv_)
+                second = N._T(second[1]) if second[0] == "T" and second[1][0] == "T" else second
                 tgt = n.generators[0].target
                 vecname = tgt.elts[1].id if isinstance(tgt, ast.Tuple) and len(tgt.elts) == 2 and isinstance(tgt.elts[1], ast.Name) else None
                 for nm in eig_v | svd_u:
